@@ -1,6 +1,6 @@
 (* C07 - Norm, inner product, sums and bilinear forms equal their dense values. *)
 From Coq Require Import List Arith.
-From TT Require Import RingSig SumN Mat Dense Core Arith MatOps Reduce CoreP ArithP MatOpsP ReduceP ReduceDimsP SumModesP BilinearP.
+From TT Require Import RingSig SumN Mat Dense Core Arith MatOps Reduce CoreP ArithP MatOpsP ReduceP ReduceDimsP SumModesP BilinearP FrobP OrthP.
 Import ListNotations.
 
 Section C07.
@@ -62,6 +62,17 @@ Theorem C07_reduce_dims_full (x : tt R) excl idx' :
   entry (reduce_dims x excl) idx' = entry x (fullidx 0 x excl idx').
 Proof. exact (reduce_dims_full x excl idx'). Qed.
 
+(* ---- the non-autograd branch of norm(): after the left-to-right QR sweep every core but the last has an orthonormal left
+   unfolding; then the interface vectors are orthonormal and the squared norm of the tensor is the squared norm of the last core
+   (any order, mode sizes, ranks; real and complex).  The same fact makes the spectrum of the last core of an orthogonalised train
+   the spectrum of the tensor (C02) and U_(<=k) U_(<=k)^H a projector (C16). ---- *)
+Theorem C07_interface_orthonormal (x : tt R) p q : chained 1 x -> Forall left_orth x -> (p < endrank 1 x)%nat -> (q < endrank 1 x)%nat ->
+  sum_idx (shape x) (fun idx => rmul (rconj (chainM (slices x idx) 0%nat p)) (chainM (slices x idx) 0%nat q)) = delta p q.
+Proof. exact (interface_orthonormal x p q). Qed.
+Theorem C07_norm2_last_core (pre : tt R) (c : core3 R) : chained 1 pre -> Forall left_orth pre -> r1 c = 1%nat ->
+  sum_idx (shape (pre ++ [c])) (fun idx => rmul (entry (pre ++ [c]) idx) (rconj (entry (pre ++ [c]) idx)))
+  = sum_n (nn c) (fun i => sum_n (endrank 1 pre) (fun p => rmul (e3 c p i 0%nat) (rconj (e3 c p i 0%nat)))).
+Proof. exact (norm2_last_core pre c). Qed.
 End C07.
 Print Assumptions C07_dot_full.
 Print Assumptions C07_norm2.
@@ -73,3 +84,5 @@ Print Assumptions C07_sum_modes_full.
 Print Assumptions C07_dot_axis_full.
 Print Assumptions C07_bilinear_full.
 Print Assumptions C07_reduce_dims_full.
+Print Assumptions C07_interface_orthonormal.
+Print Assumptions C07_norm2_last_core.
